@@ -562,6 +562,8 @@ func (c *Ctx) classifyFormat(fn *ssa.Function, v ssa.Value, kinds map[string]boo
 				kinds["single-code"] = true // codes[0] under len(codes) == 1
 			} else if k0, isK := core.ConstInt(indexOrNil(ia)); ok && isK && k0 == 0 && c.isFormatSlice(fn, ia.X) && c.helperSizeArg(ia.X) != nil && anyDominates(constEqEdges(core.StripConv(c.helperSizeArg(ia.X)), 1, true), x.Block()) {
 				kinds["single-code"] = true // codes[0] under count == 1, the helper made the slice with that count
+			} else if k0, isK := core.ConstInt(indexOrNil(ia)); ok && isK && k0 == 0 && c.isFormatSlice(fn, ia.X) && fc.count != nil && anyDominates(constEqEdges(fc.count, 1, true), x.Block()) {
+				kinds["single-code"] = true // codes[0] under count == 1, the slice was made with that count right here
 			} else {
 				kinds["unguarded-index"] = true
 			}
